@@ -72,6 +72,14 @@ def gen(r, tier):
             ops.append({"op": "cancel", "t": round(o["t"] + r.choice([0.0, 0.001, 0.02, 0.1, 0.4]), 4), "of_t": o["t"],
                         "nth": r.randrange(4)})
     ops.sort(key=lambda o: o["t"])
+    if r.chance(0.25):
+        # re-entrancy: the application reacts to the failure (or the 'not observable' outcome) of a request from inside
+        # the callback that tells it, by submitting the next confirmable request to the same peer right there
+        parents = [i for i, o in enumerate(ops) if o["op"] == "req" and not o.get("raiser") and not o.get("bad")]
+        for i in r.sample(parents, min(len(parents), r.randint(1, 2))):
+            ops.append({"op": "req", "t": ops[i]["t"], "peer": ops[i]["peer"], "con": r.chance(0.85), "child_of": i,
+                        "react": r.weighted([(5, "ack"), (2, "piggy"), (1, "silent"), (1, "rst")]),
+                        "delay": r.choice([0.005, 0.05, 0.3]), "mr": r.choice([0, 1, 2]), "ato": r.choice([0.2, 0.5])})
     # the garbage collector (off otherwise) runs at these instants; the application forgets finished requests
     gc_at = sorted(round(r.uniform(0, t + 3), 3) for _ in range(r.choice([0, 0, 2, 5, 12])))
     return {"npeers": npeers, "ops": ops, "senderr": round(r.uniform(0.02, 0.15), 3) if r.chance(0.12) else 0,
@@ -242,9 +250,18 @@ def execute(sim, scn):
         if op.get("bad"):
             msg.payload = "text, not bytes: cannot be serialised"
             sim.probe("unsendable_message")
-        if op.get("raiser"):
+        children = [(ct, co) for ct, co in enumerate(scn["ops"]) if co.get("child_of") == tag and co["op"] == "req"]
+        if op.get("raiser") or children:
             msg.opt.observe = 0
         rec = tracker.start(tag, client, msg, handle_blockwise=False)
+        if children and not op.get("raiser"):
+            def resubmit(_e, children=children):
+                while children:
+                    ct, co = children.pop(0)
+                    sim.probe("request_submitted_from_inside_an_errback")
+                    submit(ct, co)
+            rec["req"].observation.register_errback(resubmit)
+            rec["req"].observation.register_callback(lambda _m: None)
         if op.get("raiser"):
             def raiser(_):
                 sim.probe("application_callback_raised")
@@ -271,7 +288,9 @@ def execute(sim, scn):
         loop.at(tg, collect)
     icmps = []
     for tag, op in enumerate(scn["ops"]):
-        if op["op"] == "req":
+        if op["op"] == "req" and op.get("child_of") is not None:
+            pass  # submitted from its parent's errback
+        elif op["op"] == "req":
             loop.at(op["t"], submit, tag, op)
         elif op["op"] == "srv":
             if tag < 256:
@@ -460,6 +479,12 @@ def execute(sim, scn):
                 continue
             if not rec["done"]:
                 sim.violation("C14/held-back-message-forgotten", {"remote": fmt(R), "tag": tag, "submitted": s})
+            elif rec["outcome"] == "error" and isinstance(rec["exception"], AssertionError) and \
+                    "reentered" in str(rec["exception"]) and scn["ops"][tag].get("child_of") is not None:
+                # submitted from inside an errback that ran inside a failing sendmsg(): the udp6 transport refuses to be
+                # re-entered with an assertion, which becomes the request's outcome (not a library error)
+                sim.violation("C14/request-submitted-inside-failing-send-fails-with-assertion",
+                              {"remote": fmt(R), "tag": tag, "exc": repr(rec.get("exception"))})
             elif rec["outcome"] != "error" or not isinstance(rec["exception"], error.NetworkError):
                 sim.violation("C14/held-back-request-wrong-failure", {"remote": fmt(R), "tag": tag,
                                                                      "outcome": rec["outcome"], "exc": repr(rec.get("exception"))})
